@@ -320,6 +320,15 @@ def cdna_inject(rng, d, kind):
             return None
         t.update(ref_start=max(1, a[3] - 5), ref_end=a[3] + 6, r2_start=a[3] - 1, r2_end=a[3] + 3, action=[rng.choice(NT_MUT + CDS_MUT)])
         return d, i
+    if kind == 'region_contains_cds':
+        # the whole coding sequence and at least one untranslated base on each side: still a partial-CDS region (nucleotide-level mutators only:
+        # a codon-level one would be refused for its own reason)
+        n = len(d['seqs'][t['seq_id']])
+        if not a or a[3] < 2 or a[4] > n - 1:
+            return None
+        lo, hi = a[3] - rng.randint(1, min(3, a[3] - 1)), a[4] + rng.randint(1, min(3, n - a[4]))
+        t.update(ref_start=max(1, lo - rng.randint(0, 4)), ref_end=min(n, hi + rng.randint(0, 4)), r2_start=lo, r2_end=hi, action=[rng.choice(NT_MUT)])
+        return d, i
     if kind == 'region_exceeds_targeton':
         t['r2_end'] = t['ref_end'] + rng.randint(1, 3)
         return d, None
@@ -542,6 +551,19 @@ def explore(ctx: Ctx):
     for i in range(ctx.n(300, 3000)):
         jobs.append(valid_design(rng, i))
         meta.append(('valid', None, None))
+    # a deliberate class (own generator state, after everything else): a cDNA region that contains the whole coding sequence
+    import random
+    r2 = random.Random(f'C19-cdna-region-contains-cds-{ctx.seed}')
+    made = 0
+    for attempt in range(per * 40):
+        if made >= max(3, per // 2):
+            break
+        out = cdna_inject(r2, gen.gen_cdna(r2, {}), 'region_contains_cds')
+        if out is None:
+            continue
+        jobs.append(out[0])
+        meta.append(('invalid', 'cdna_region_contains_cds', out[1]))
+        made += 1
     results = pool_map(run_case, jobs, chunksize=2)
     for d, (cls, kind, idx), r in zip(jobs, meta, results):
         if cls == 'invalid':
